@@ -748,7 +748,34 @@ def check_c20(rep):
         futs = [ex.submit(hcv, ["c20", rep.tier, str(rep.seed), part], 2400) for part in ("cheetah", "bolt", "conv")]
         for f in futs:
             raw += f.result().splitlines()
-    evs = [json.loads(l) for l in raw]
+    allev = [json.loads(l) for l in raw]
+    layouts = [e for e in allev if e["k"] == "cheetah_layout"]
+    raw = [l for l, e in zip(raw, allev) if e["k"] != "cheetah_layout"]
+    evs = [e for e in allev if e["k"] != "cheetah_layout"]
+    # design: the coefficient packing (block search, index maps, block-wise negacyclic products) computes the matrix product
+    quick = rep.tier == "quick"
+    design = []
+    for n, md, full in ((8, 3, True), (16, 5 if quick else 7, False), (32, 7 if quick else 9, False)):
+        cfgp = os.path.join(wd, "cheetah_design_%d.cfg" % n)
+        open(cfgp, "w").write("SPECIFICATION Spec\nCONSTANTS\n  N = %d\n  MaxDim = %d\nINVARIANTS AllBlocksOk AllIndexOk AllUnitsOk%s\nCHECK_DEADLOCK FALSE\n" % (n, md, " AllProductsOk" if full else ""))
+        r = run_tlc("Cheetah", cfgp, wd, workers=1, timeout=1500)
+        if r["violated"]:
+            raise ToolError("Cheetah.tla violates %s (N=%d)" % (r["violated"], n))
+        tlc_must_pass(r, "Cheetah.tla N=%d" % n)
+        design.append({"N": n, "max_dim": md, "shapes_x_objectives": md ** 3 * 3, "generic_product_checked": full, "tlc_wall_s": round(r["wall_s"], 1)})
+    rep.cov["cheetah_refinement_design"] = design
+    # binding of the design: block choice, encoded polynomials and term lists of the real helper against the model
+    nlay = 0
+    for n in sorted({e["N"] for e in layouts}):
+        part = [dict(e, panicked=("panic" in e)) for e in layouts if e["N"] == n]
+        cfg = "SPECIFICATION TSpec\nCONSTANTS\n  N = %d\n  MaxDim = 1\nINVARIANT Report\nINVARIANT AllHold\nCHECK_DEADLOCK FALSE\n" % n
+        lbad, lst = arith.validate([json.dumps(e) for e in part], wd, name="layout%d" % n, module="Trace_Cheetah", chunks=8, timeout=3000, cfg_text=cfg)
+        nlay += len(part)
+        for b in lbad:
+            e = part[b[0] - 1]
+            rep.violation({"k": "cheetah_layout", "objective": e["objective"], "panic": e["panicked"]},
+                          {"event": {k: v for k, v in e.items() if k not in ("enc_in", "enc_w")}, "cmd": None})
+    rep.cov["cheetah_layout_events"] = nlay
     bad, st = arith.validate(raw, wd, module="Trace_MatMul", chunks=8, timeout=3000)
     for b in bad:
         e = evs[b[0] - 1]
@@ -769,10 +796,11 @@ def check_c20(rep):
     rep.cov["rule"] = ("events = real runs of the helpers on random operands: Cheetah coefficient-packing matmul for every shape (m,r,n) in 1..4 (quick) / 1..6 (thorough) at N=16 (32) x three objectives "
                        "(cipher*plain, plain*cipher) x output packing on/off (+ selected-terms transport, bias through encode_outputs, encode/decrypt round trip) plus shapes needing several ciphertexts and partial blocks; "
                        "the three BOLT slot-packing variants at N=32; conv2d over image 2..7 (2..9) x kernel 1..2 x 1..3 x channel/batch combinations incl. height/width tiling; "
-                       "TLC evaluates Y = XW + B mod t resp. the valid cross-correlation of MatMul.tla on every event")
+                       "TLC evaluates Y = XW + B mod t resp. the valid cross-correlation of MatMul.tla on every event; Cheetah.tla (refinement of the coefficient packing) is model-checked for all shapes up to the "
+                       "stated dimension and bound to the helper through its block choice, encoded polynomials and term lists")
     rep.samples += [{k: v for k, v in evs[i].items() if k not in ("x", "w", "bias", "y", "v", "out")} for i in (0, len(evs) // 2, len(evs) - 1)]
     rep.assumptions += ["operands are random per run (seeded); only the listed small shapes are covered; the CKKS variants and the RNS-plaintext wrapper are not exercised by this check"]
-    log("[C20] %d events, %d rejected" % (len(raw), len(bad)))
+    log("[C20] %d events, %d rejected; %d layout events against Cheetah.tla" % (len(raw), len(bad), nlay))
 
 
 REGISTRY.update({"C20": (check_c20, "model_checking")})
